@@ -238,9 +238,16 @@ def run_brier(case):
     fx, ox = da(case["f"], dt), da(case["o"], odt)
     if cont == "ds":
         fx, ox = xr.Dataset({fresh("v"): fx}), xr.Dataset({fresh("v"): ox})
-    elif cont == "ds2":
-        fx = xr.Dataset({fresh("ok"): da(ok_var(case), dt), fresh("bad"): fx})
-        ox = xr.Dataset({fresh("ok"): ox, fresh("bad"): ox.copy()})
+    elif cont in ("ds2", "ds3"):
+        fv = {fresh("ok"): da(ok_var(case), dt), fresh("bad"): fx}
+        ov = {fresh("ok"): ox, fresh("bad"): ox.copy()}
+        if cont == "ds3" and dt is not np.int64:
+            # an all-NaN variable FIRST (and the probed one last): the range guard must look at every variable,
+            # whatever their order and whatever NaNs the others hold
+            nanv = da([[NAN] * len(case["f"][0]) for _ in case["f"]], dt)
+            fv = dict([(fresh("allnan"), nanv)] + list(fv.items()))
+            ov = dict([(fresh("allnan"), ox.copy())] + list(ov.items()))
+        fx, ox = xr.Dataset(fv), xr.Dataset(ov)
     kw = {}
     if case["w"] is not None:
         kw["weights"] = xr.DataArray(np.array(case["w"], dtype=float), dims=[fresh("a"), fresh("b")])
@@ -253,8 +260,9 @@ def run_brier(case):
             out = brier_score(fx, ox, **kw)
         if cont == "da":
             return ("ok", np.asarray(out.values, dtype=float).ravel().tolist(), tuple(out.dims))
-        names = ["v"] if cont == "ds" else ["bad", "ok"]
-        if not isinstance(out, xr.Dataset) or sorted(out.data_vars) != sorted(names):
+        names = ["v"] if cont == "ds" else ["bad", "ok"]      # ("ds3": the all-NaN variable's own score is NaN and not compared)
+        extra = ["allnan"] if (cont == "ds3" and dt is not np.int64) else []
+        if not isinstance(out, xr.Dataset) or sorted(out.data_vars) != sorted(names + extra):
             return ("err", f"shape: result {type(out).__name__} {list(getattr(out, 'data_vars', []))}")
         return ("ok", [x for k in names for x in np.asarray(out[k].values, dtype=float).ravel().tolist()], tuple(out[names[0]].dims))
     except Exception as ex:  # noqa: BLE001
@@ -274,7 +282,7 @@ def brier_fibres(case):
     else:
         idx = [np.array([[i == k for _ in range(shape[1])] for i in range(shape[0])]) for k in range(shape[0])]
     out = []
-    for fv in [case["f"]] + ([ok_var(case)] if case.get("container") == "ds2" else []):
+    for fv in [case["f"]] + ([ok_var(case)] if case.get("container") in ("ds2", "ds3") else []):
         f = np.array(fv, dtype=float)
         out += [(f[m].tolist(), o[m].tolist(), None if w is None else w[m].tolist()) for m in idx]
     return out
@@ -282,7 +290,7 @@ def brier_fibres(case):
 
 def brier_ops(case, opname):
     check = True if case["check"] == "omit" else case["check"]
-    two = case.get("container") == "ds2"
+    two = case.get("container") in ("ds2", "ds3")
     ff = [x for r in case["f"] for x in r] + ([x for r in ok_var(case) for x in r] if two else [])
     oo = [x for r in case["o"] for x in r] * (2 if two else 1)
     ops = [{"op": opname, "args": {"fcst": fls(ff), "obs": fls(oo), "weights": None, "check": check}}]   # guards on the whole
@@ -404,23 +412,23 @@ def gen_brier_probes(rng):
 
     for label, v, fmts in OUTSIDE + INSIDE:
         for dtype in fmts:
-            for cont in ("da", "ds", "ds2"):
+            for cont in ("da", "ds", "ds2", "ds3"):
                 for layout in ("alone", "hidden", "nans"):
                     add(label, v, "f", dtype, cont, layout, rng.choice([True, "omit"]))
             # the unchecked path scores the exact values, whatever they are
-            add(label, v, "f", dtype, rng.choice(["da", "ds", "ds2"]), rng.choice(["alone", "hidden", "nans"]), False)
+            add(label, v, "f", dtype, rng.choice(["da", "ds", "ds2", "ds3"]), rng.choice(["alone", "hidden", "nans"]), False)
     for label, v, fmts in OUTSIDE_HUGE:
         for dtype in fmts:
-            for cont in ("da", "ds2"):
+            for cont in ("da", "ds2", "ds3"):
                 add(label, v, "f", dtype, cont, rng.choice(["alone", "hidden", "nans"]), rng.choice([True, "omit"]))
     # observations: {0, 1} exactly (−0.0 is 0); one resolution step away is not binary
     for label, v, fmts in OUTSIDE + INSIDE:
         for dtype in fmts:
-            add(label, v, "o", dtype, rng.choice(["da", "ds", "ds2"]), rng.choice(["alone", "hidden", "nans"]),
+            add(label, v, "o", dtype, rng.choice(["da", "ds", "ds2", "ds3"]), rng.choice(["alone", "hidden", "nans"]),
                 rng.choice([True, "omit"]))
     # integer storage: the value of an int64 1 is 1
     for bad in (None, 2, -1, 3):
-        for cont in ("da", "ds", "ds2"):
+        for cont in ("da", "ds", "ds2", "ds3"):
             for layout in ("alone", "hidden"):
                 f, o = place(0.0 if bad is None else float(bad), layout, "f", "i8")
                 f = [[float(round(x)) for x in row] for row in f]
